@@ -94,6 +94,15 @@ def make_presentation(kind, rng):
     if kind == "identity":
         return d
     U = np.eye(3, dtype=int)
+    if kind.startswith("primitive"):
+        # the description starts from a PRIMITIVE cell of the crystal (spglib, no idealisation), not from the conventional one:
+        # supercells of the primitive cell of a centred lattice have as many atoms as the conventional cell, or fewer
+        d["from_primitive"] = True
+        kind = kind[len("primitive"):].lstrip("-") or "identity"
+        if kind == "identity":
+            d["rotation"] = K.random_rotation(rng, proper=True).tolist()
+            d["perm_seed"] = rng.randrange(1 << 30)
+            return d
     if kind in ("shear", "shear-lefthanded", "supercell+shear"):
         U = K.random_unimodular(rng, steps=rng.choice([2, 3, 4, 5, 6]))
     if kind == "shear-lefthanded":
@@ -114,6 +123,13 @@ def make_presentation(kind, rng):
 def apply_presentation(cr, d):
     """the same crystal in another description; None when the supercell enumeration failed"""
     out = strip(cr)
+    if d.get("from_primitive"):
+        import spglib
+        prim = spglib.standardize_cell((np.array(out["cell"]), np.array(out["scaled_positions"]), np.array(out["numbers"])),
+                                       to_primitive=True, no_idealize=True, symprec=1e-5)
+        if prim is None:
+            return None
+        out = {"cell": np.array(prim[0]).tolist(), "scaled_positions": np.array(prim[1]).tolist(), "numbers": [int(z) for z in prim[2]]}
     for step in (d.get("T_steps") or [d["T"]]):     # new cell rows = T @ old cell rows; T = product of the steps
         T = np.array(step, dtype=int)
         if not np.array_equal(T, np.eye(3, dtype=int)):
@@ -144,8 +160,9 @@ def apply_presentation(cr, d):
     return {"cell": cell.tolist(), "scaled_positions": P.tolist(), "numbers": [int(z) for z in nums]}
 
 
-KINDS_QUICK = ["identity", "shear", "supercell", "supercell+shear"]
-KINDS_THOROUGH = ["identity", "shear", "shear", "shear-lefthanded", "supercell", "supercell", "supercell+shear"]
+KINDS_QUICK = ["identity", "shear", "supercell", "supercell+shear", "primitive", "primitive-supercell"]
+KINDS_THOROUGH = ["identity", "shear", "shear", "shear-lefthanded", "supercell", "supercell", "supercell+shear",
+                  "primitive", "primitive-supercell", "primitive-supercell", "primitive-supercell+shear"]
 
 _TABLES = None
 
@@ -196,12 +213,20 @@ def generate_family(ctx, tables, n_crystals, kinds, max_atoms=100, groups=None):
 # ---------------------------------------------------------------------------------------------------
 # implementation runs and the property's own predicate
 # ---------------------------------------------------------------------------------------------------
+PREVIOUS = {}
+
+
 def run_impl(cases):
     """cases: [{id, crystal, tol}] -> {id: result}"""
     if not cases:
         return {}, "n/a"
     n = max(1, min(JOBS, len(cases) // 8 or 1))
     chunks = [c for c in (cases[i::n] for i in range(n)) if c]
+    for ch in chunks:       # which crystal the process-wide analyzer of the runner saw just before each case (same tolerance)
+        last = {}
+        for c in ch:
+            PREVIOUS[c["id"]] = last.get(c["tol"])
+            last[c["tol"]] = c["crystal"]
     outs = C.impl_run_parallel("c15_impl", [{"cases": [{"id": c["id"], "crystal": c["crystal"], "tol": c["tol"]} for c in ch]} for ch in chunks], jobs=JOBS)
     res = {}
     for o in outs:
@@ -218,6 +243,9 @@ def predicate(r, soh):
         return "flag-not-boolean"
     if r["flag"] != r["flag_again"]:
         return "flag-not-deterministic"
+    ru = r.get("reused_analyzer")
+    if ru is not None and (ru[0] == "error" or ru[0] != r["flag"] or ru[2] != r["flag"] or ru[1] != r["number"]):
+        return "flag-depends-on-analyzer-history"
     if r["flag"] != (r["number"] in soh):
         return "flag-differs-from-sohncke-membership"
     return None
@@ -393,6 +421,10 @@ def report(ctx, soh, tables, c, r, reason, baseline=None, broken=None, do_shrink
            "implementation": trim(rr), "expected_flag": (rr.get("number") in soh) if "number" in rr else None,
            "scanned_matrices_with_inexact_float_determinant": [{"matrix": m, "float_det": v, "exact_det": det3(m)} for m, v in inexact[:6]],
            "baseline": baseline, "broken_obligation": broken}
+    if reason == "flag-depends-on-analyzer-history":
+        rep["history"] = ("one SymmetryAnalyzer object: constructed on / set_system(previous_crystal), get_is_chiral(); then set_system(presented_crystal): "
+                          "get_is_chiral() / get_space_group_number() differ from a fresh analyzer's (implementation.reused_analyzer = [flag, number, flag again])")
+        rep["previous_crystal"] = PREVIOUS.get(c["id"])
     return ctx.violation(rep, found_input=True, tag="%s-sg%s" % (cause, rr.get("number", c.get("sg"))))
 
 
@@ -681,6 +713,8 @@ def replay(ctx, rep):
         print("replay: nothing to re-run for kind", rep.get("kind"))
         return
     cs = [{"id": 0, "crystal": rep["presented_crystal"], "tol": rep.get("tol", TOL)}]
+    if rep.get("previous_crystal"):
+        cs.insert(0, {"id": 2, "crystal": rep["previous_crystal"], "tol": rep.get("tol", TOL)})
     if rep.get("crystal"):
         cs.append({"id": 1, "crystal": rep["crystal"], "tol": rep.get("tol", TOL)})
     res, _ = run_impl(cs)
